@@ -12,6 +12,7 @@
 # You should have received a copy of the GNU Lesser General Public
 # License along with this library.  If not, see <http://www.gnu.org/licenses/>.
 
+import os
 import pathlib
 from types import MappingProxyType
 
@@ -210,7 +211,8 @@ class IOManager:
         spec = cls(**spec_args)
         spec._manager = self
         spec._io = self.get_or_create_io(
-            io_group, pathlib.Path(path), cls=cls.io_class, **io_args)
+            io_group, pathlib.Path(os.path.normpath(path)),
+            cls=cls.io_class, **io_args)
         try:
             spec._on_load_value()
             self.add_spec(spec.io, spec)
@@ -258,7 +260,7 @@ class IOManager:
             raise ValueError("cannot change spec")
 
     def update_path(self, io_, path):
-        path = pathlib.Path(path)
+        path = pathlib.Path(os.path.normpath(path))
         group, path_old = key_old = self.ios.inverse[io_]
         if path == path_old:
             return
